@@ -3,5 +3,5 @@
 P=$(realpath "$1"); shift
 T=$(mktemp -d /tmp/vfp_XXXX); cp -r /repo/uxarray $T/uxarray
 (cd $T && patch -p1 -s -F3 --no-backup-if-mismatch < $P) || { echo "patch failed"; rm -rf $T; exit 2; }
-cd /verif && VERIF_REPO=$T tools/vf.py "$@"
+cd "$(dirname "$0")/.." && VERIF_REPO=$T tools/vf.py "$@"
 rm -rf $T
